@@ -113,6 +113,12 @@ def tr_expr(cx, env, e):
         d = dotted(e)
         if d in cx.consts:
             return lit(cx.consts[d]), 'int', []
+        if d and d.startswith('self.') and d[5:] in cx.spec.get('self_consts', {}):
+            modname, clsname = cx.spec['self_consts'][d[5:]]
+            val = getattr(getattr(importlib.import_module(modname), clsname), d[5:])
+            if not isinstance(val, int):
+                raise Unsupported('class constant %s is not an int' % d)
+            return lit(val), 'int', []
         if d and d.startswith('self.') and d[5:] in cx.spec.get('self', {}):
             nm = 'self_' + d[5:]
             cx.self_params[nm] = cx.spec['self'][d[5:]]
@@ -148,6 +154,15 @@ def tr_expr(cx, env, e):
             if op in table:
                 return table[op] % (a, b), 'int', pre
         raise Unsupported('binop %s on %s,%s' % (unparse(e), ta, tb))
+    if isinstance(e, ast.Compare) and len(e.ops) == 1 and isinstance(e.ops[0], (ast.In, ast.NotIn)):
+        a, ta, pa = tr_expr(cx, env, e.left)
+        b, tb, pb = tr_expr(cx, env, e.comparators[0])
+        if ta == 'int' and tb == 'tup':
+            r = '(Py.mem %s %s)' % (a, b)
+            if isinstance(e.ops[0], ast.NotIn):
+                r = '(!%s)' % r
+            return r, 'bool', pa + pb
+        raise Unsupported('membership %s' % unparse(e))
     if isinstance(e, ast.Compare):
         parts = []
         pre = []
@@ -231,6 +246,10 @@ def tr_expr(cx, env, e):
                 if tn == 'int' and ts == 'bool':
                     v = cx.tmp()
                     return v, 'tup', pa + pn + ps + ['let %s ← Py.toBytes %s %s %s' % (v, a, n, s)]
+        if isinstance(f, ast.Name) and f.id == 'list' and len(e.args) == 1:
+            a, ta, pa = tr_expr(cx, env, e.args[0])
+            if ta == 'tup':
+                return a, 'tup', pa
         if isinstance(f, ast.Name) and f.id == 'int' and len(e.args) == 1:
             a, ta, pa = tr_expr(cx, env, e.args[0])
             if ta == 'int':
@@ -272,6 +291,10 @@ def assigned(stmts):
                 tgt(t)
         elif isinstance(s, ast.AugAssign):
             tgt(s.target)
+        elif isinstance(s, ast.Delete):
+            for t in s.targets:
+                if isinstance(t, ast.Subscript) and isinstance(t.value, ast.Name):
+                    add(t.value.id)
         elif isinstance(s, ast.If):
             for n in assigned(s.body) + assigned(s.orelse):
                 add(n)
@@ -356,6 +379,18 @@ def tr_block(cx, env, stmts, ret_ty, tail):
         return cont(env)        # docstring
     if isinstance(s, ast.Pass):
         return cont(env)
+    if unparse(s).strip() in cx.spec.get('skip', []):
+        return cont(env)        # a statement outside the computation (declared in kernels.json, matched verbatim)
+    if isinstance(s, ast.Delete):
+        if len(s.targets) != 1 or not isinstance(s.targets[0], ast.Subscript) or not isinstance(s.targets[0].value, ast.Name):
+            raise Unsupported('del %s' % unparse(s))
+        nm = s.targets[0].value.id
+        if env.get(nm) != 'tup' or isinstance(s.targets[0].slice, ast.Slice):
+            raise Unsupported('del %s' % unparse(s))
+        i, ti, pi = tr_expr(cx, env, s.targets[0].slice)
+        if ti != 'int':
+            raise Unsupported('del index')
+        return pi + ['let %s ← Py.delAt %s %s' % (nm, nm, i)] + cont(env)
     if isinstance(s, ast.Return):
         v, tv, pre = tr_expr(cx, env, s.value)
         return pre + ['pure %s' % v]
@@ -486,15 +521,20 @@ def tr_block(cx, env, stmts, ret_ty, tail):
             call = '%s %s %s %s' % (fname, rec_args, it, ' '.join(threaded))
         else:
             c, tc, pc = tr_expr(cx, env_in, s.test)
-            if pc:
-                raise Unsupported('loop condition with side effects')
             c = as_bool(c, tc)
             rec = lambda e2: ['%s %s fuel_ %s' % (fname, rec_args, ' '.join(threaded))]
             body = tr_block(cx, env_in, s.body, ret_ty, rec)
-            aux = ['def %s%s : Nat → %sPy.M (%s)' % (fname, sig_consts, ''.join(LEAN_TY[env[n]] + ' → ' for n in threaded), ret),
-                   '  | 0%s => throw Py.PyErr.fuel' % ''.join(', _' for n in threaded),
-                   '  | fuel_ + 1%s =>' % ''.join(', ' + n for n in threaded),
-                   '    if %s then do' % c] + ind(body, 6) + ['    else pure %s' % (tup_of(threaded) if threaded else '()')]
+            if pc:
+                # the condition reads the tuple (may raise IndexError): evaluated inside the loop function
+                aux = ['def %s%s : Nat → %sPy.M (%s)' % (fname, sig_consts, ''.join(LEAN_TY[env[n]] + ' → ' for n in threaded), ret),
+                       '  | 0%s => throw Py.PyErr.fuel' % ''.join(', _' for n in threaded),
+                       '  | fuel_ + 1%s => do' % ''.join(', ' + n for n in threaded)] + ind(pc, 4) + [
+                       '    if %s then do' % c] + ind(body, 6) + ['    else pure %s' % (tup_of(threaded) if threaded else '()')]
+            else:
+                aux = ['def %s%s : Nat → %sPy.M (%s)' % (fname, sig_consts, ''.join(LEAN_TY[env[n]] + ' → ' for n in threaded), ret),
+                       '  | 0%s => throw Py.PyErr.fuel' % ''.join(', _' for n in threaded),
+                       '  | fuel_ + 1%s =>' % ''.join(', ' + n for n in threaded),
+                       '    if %s then do' % c] + ind(body, 6) + ['    else pure %s' % (tup_of(threaded) if threaded else '()')]
             if not cx.fuels:
                 raise Unsupported('no fuel expression given for loop %d' % k)
             fuel = cx.fuels.pop(0)
